@@ -12,7 +12,10 @@ from .common import measure_blocks_reads, slice_measures_obj, strand_measures_ob
 CP = "cubepart.py"
 ROW_ORD, COL_ORD = "self._row_order_signed_indexes", "self._column_order_signed_indexes"
 ASSEMBLERS = ("self._assemble_matrix", "self._assemble_marginal", "self._assemble_vector")
-REDUCERS = {"np.sum", "np.nansum", "np.median", "np.mean", "np.nanmean", "np.max", "np.min", "np.prod", "sum", "max", "min"}
+# computations whose result depends on the ORDER of their operand's entries (neighbours / prefixes): applied to a display
+# value they see the display neighbours, not the payload ones
+ORDER_SENSITIVE = ("np.convolve", "np.cumsum", "np.nancumsum", "np.diff", "np.ediff1d", "np.correlate")
+REDUCERS = {"np.sum", "np.nansum", "np.median", "np.mean", "np.nanmean", "np.max", "np.min", "np.prod", "sum", "max", "min", "np.all", "np.any"}
 
 
 def run(ctx: Ctx):
@@ -30,6 +33,7 @@ def run(ctx: Ctx):
     assemble_vector_table(ctx)
     non_interference(ctx)
     coordinate_typing(ctx)
+    order_inputs_payload(ctx)
     display_reductions(ctx)
     pairing(ctx)
     index_space_zip(ctx)
@@ -245,7 +249,7 @@ def coordinate_typing(ctx: Ctx):
                 if not isinstance(node, ast.Call):
                     continue
                 f = u(node.func)
-                payload_ctx = f in ASSEMBLERS or f in ("np.block", "np.hstack", "np.concatenate") and False or f.startswith("SumSubtotals.") or f.startswith("self._measures.")
+                payload_ctx = f in ASSEMBLERS or f in ("np.block", "np.hstack", "np.concatenate") and False or f.startswith("SumSubtotals.") or f.startswith("self._measures.") or f.endswith(".smooth") or f in ORDER_SENSITIVE
                 if not payload_ctx:
                     continue
                 n_sites += 1
@@ -299,6 +303,34 @@ def coordinate_typing(ctx: Ctx):
         ctx.count("payload-context call sites", n_sites)
     ctx.require_min("payload-context call sites", 80)
     ctx.require_min("display-typed properties", 100)
+
+
+def order_inputs_payload(ctx: Ctx, rule: str = "order-inputs"):
+    """What a partition hands to a collator / order helper (empty element positions, values to sort by) is in PAYLOAD
+    index space: positions found in an assembled (public) vector are display positions - reordered, with subtotals
+    interleaved and hidden / pruned elements already gone - and name other elements."""
+    n = 0
+    for cname in ("_Slice", "_Strand"):
+        ci = ctx.repo.cls(CP, cname)
+        disp = _display_props(ctx, ci)
+        for name, m in sorted(((n_, m_) for c in ci.mro for n_, m_ in c.members.items()), key=lambda x: x[0]):
+            body = SUMMARIZER.summarize(m.node)
+            for node in ast.walk(body):
+                if not isinstance(node, ast.Call):
+                    continue
+                f = u(node.func)
+                if not ("Collator" in f or "OrderHelper" in f):
+                    continue
+                n += 1
+                bad = sorted({r for a in list(node.args) + [k.value for k in node.keywords] for r in _self_reads(a) if r[5:] in disp})
+                where = f"{CP}::{cname}.{name} [{f}]"
+                if bad:
+                    ctx.violated(rule, where, f"display-space operand(s) {bad} passed to {f}", "payload-space operands (cube-measure / measure values before assembly)",
+                                 "positions taken from an assembled vector are display positions: after reordering, hiding, pruning or with subtotals they name other elements")
+                else:
+                    ctx.held(rule, where, "payload-space operands only", "")
+    ctx.count("collator / order-helper call sites in the partition classes", n)
+    ctx.require_min("collator / order-helper call sites in the partition classes", 4)
 
 
 METHOD_REDUCERS = {"sum", "mean", "prod", "max", "min", "cumsum"}
